@@ -93,7 +93,8 @@ def judge_stencils(ctx):
 
 # ------------------------------------------------------------------ signals
 def make_grid(rng, nt):
-    kind = str(rng.choice(["uniform", "jitter-small", "jitter-isolated", "jitter-repeated", "gap", "uniform"]))
+    kind = str(rng.choice(["uniform", "jitter-small", "jitter-isolated", "jitter-repeated", "gap", "uniform",
+                           "firstgap+jitter", "gap+jitter"]))
     dt0 = float(rng.choice([0.4, 0.5, 1.0, 2.5]))
     dt = np.full(nt - 1, dt0)
     if kind == "jitter-small":
@@ -108,6 +109,14 @@ def make_grid(rng, nt):
     elif kind == "gap" and nt > 3:
         i = int(rng.integers(0, nt - 1))
         dt[i] *= float(rng.integers(3, 50))
+    elif kind in ("firstgap+jitter", "gap+jitter") and nt > 3:
+        # an unusually long interval (the very first one, or anywhere) *and* later jitter of 2 % / 20 % of the local step
+        i = 0 if kind == "firstgap+jitter" else int(rng.integers(0, nt - 1))
+        dt[i] *= float(rng.integers(3, 50))
+        for _ in range(int(rng.integers(1, 4))):
+            j = int(rng.integers(0, nt - 1))
+            if j != i:
+                dt[j] *= float(rng.choice([1.02, 0.98, 1.2, 0.8]))
     t = np.concatenate([[float(rng.uniform(-5, 5))], np.zeros(nt - 1)])
     t[1:] = t[0] + np.cumsum(dt)
     return kind, t
